@@ -31,6 +31,7 @@ import GM.Proof.ExtLoop
 import GM.Proof.ExtWriter
 import GM.Model.InlinesLoopX
 import GM.Proof.InlinesLoopX
+import GM.Props.Convert
 
 namespace GM.Props.C11
 open GM GM.InlineLoop GM.Proof.InlineLoop
@@ -398,5 +399,16 @@ example : (run ⟨[extParser barBlock 7 (Spec.Ext.triggersOf "linkify" "inline")
   decide +kernel
 example : resolve barBlock.src (run ⟨[extParser barBlock 7 (Spec.Ext.triggersOf "linkify" "inline") (fun _ _ => Ext.linkifyParse false)], false⟩ barBlock).st.kids =
     resolve barBlock.src (run ⟨[], false⟩ barBlock).st.kids := by decide +kernel
+
+/-! ### paragraph transformers return without touching paragraphs they do not recognise: the built-in link reference
+    transformer (package `convert`, GM.Model.LinkRef = parser/link_ref.go) -/
+
+theorem unrecognised_paragraph_untouched : type_of% @GM.Props.Convert.unrecognised_paragraph_untouched :=
+  @GM.Props.Convert.unrecognised_paragraph_untouched
+/-- `Transform` on a paragraph it does not recognise ends in EXACTLY the state it started from -/
+theorem unrecognised_paragraph_state_untouched : type_of% @GM.Props.Convert.unrecognised_paragraph_state_untouched :=
+  @GM.Props.Convert.unrecognised_paragraph_state_untouched
+theorem paragraph_not_started_by_bracket_untouched : type_of% @GM.Props.Convert.paragraph_not_started_by_bracket_untouched :=
+  @GM.Props.Convert.paragraph_not_started_by_bracket_untouched
 
 end GM.Props.C11
